@@ -171,7 +171,7 @@ theorem addVote_skip_step {e : Epoch} {hi s : Nat} {p : Nat × Nat} {voters : Na
       (if (e.isQuorum (stakeOf e (voters t ++ [j])) && !e.isQuorum (stakeOf e (voters t))) = true then
         skipEvs (ParentReady.windowFirst s + ParentReady.W) p t else []) := by
   have hst := ps.slots t h1 h2
-  obtain ⟨hc, hi'⟩ := hst.admit hj
+  obtain ⟨hc, hi'⟩ := hst.admits hj
   have hadm := addVote_admitted Q ⟨.skip, t, 0, j⟩ (ps.inBounds t h1 h3) (by rw [ps.epoch]; exact hjn) hc hi'
   have hQ0e : (Q.slotState t).1.epoch = e := (slotState_frame Q t).1.trans ps.epoch
   simp only [hQ0e] at hadm
